@@ -12,7 +12,7 @@ use std::collections::HashMap;
 const IDS: [&str; 3] = ["1", "18446744073709551615", "\"a-string-id\""];
 const METHODS: [&str; 2] = ["blob", "blob_err"];
 const KINDS: [u8; 5] = [0, 1, 2, 3, 4];
-const NMAX: usize = 340;
+const NMAX: usize = 700;
 
 fn call_text(method: &str, id: &str, kind: u8, n: usize) -> String {
 	format!(r#"{{"jsonrpc":"2.0","id":{id},"method":"{method}","params":[{kind},{n}]}}"#)
@@ -22,7 +22,8 @@ fn limits(thorough: bool) -> Vec<u32> {
 	let mut v: Vec<u32> = (40..=260).step_by(if thorough { 1 } else { 1 }).collect();
 	v.extend([1024, 65536]);
 	if thorough {
-		v.extend(261..=330);
+		v.extend(261..=600);
+		v.extend([2048, 4096, 10_000]);
 	}
 	v
 }
@@ -44,7 +45,7 @@ fn class_of(kind: u8) -> &'static str {
 pub fn check(rep: &Reporter) {
 	let thorough = rep.tier.thorough();
 	rep.set_rule(
-		"limits L = 40..260 in steps of 1 (thorough to 330) ∪ {1024, 65536}; for each L and each of 30 response shapes (result / error-with-data × ASCII / needs-escaping / 2-byte / 4-byte UTF-8 / control characters × id width 1 / 20 digits / string) every handler payload size whose unlimited reply is within L±3 bytes, plus 0 and a far-too-big one, over HTTP and WebSocket; batches of 1..4 entries whose array length is L−2…L+2 with the adjustable entry at every position; WebSocket subscribe calls whose response carries a subscription id of controlled width (response length L−2…L+2); plus the full 1-step sweep of MethodResponse::response and BatchResponseBuilder. Oracle: the reply of a server with the limit disabled; every frame on the wire is ≤ L bytes or one of the two fixed errors; the handler log is the same with and without the limit. Distinct by (L, shape, size, transport).",
+		"limits L = 40..260 in steps of 1 (thorough to 600, plus 2048/4096/10000) ∪ {1024, 65536}; for each L and each of 30 response shapes (result / error-with-data × ASCII / needs-escaping / 2-byte / 4-byte UTF-8 / control characters × id width 1 / 20 digits / string) every handler payload size whose unlimited reply is within L±3 (thorough ±6) bytes, plus 0 and a far-too-big one, over HTTP and WebSocket; batches of 1..4 (thorough 6) entries whose array length is L−2…L+2 (thorough ±4) with the adjustable entry at every position; WebSocket subscribe calls whose response carries a subscription id of controlled width (response length L−2…L+2); plus the full 1-step sweep of MethodResponse::response and BatchResponseBuilder. Oracle: the reply of a server with the limit disabled; every frame on the wire is ≤ L bytes or one of the two fixed errors; the handler log is the same with and without the limit. Distinct by (L, shape, size, transport).",
 	);
 	rep.assume("the 'fixed small too-big error itself' (-32008 / -32011) may exceed L, as the statement says");
 
@@ -78,7 +79,8 @@ pub fn check(rep: &Reporter) {
 		let _e = rt.enter();
 		let mut http = srv::http_service(cfg(l));
 		let ws = srv::ws_server(cfg(l));
-		let mut ns: Vec<usize> = (0..=NMAX).filter(|n| (unl[&(mi, ii, ki, *n)].len() as i64 - l as i64).abs() <= 3).collect();
+		let window = if thorough { 6 } else { 3 };
+		let mut ns: Vec<usize> = (0..=NMAX).filter(|n| (unl[&(mi, ii, ki, *n)].len() as i64 - l as i64).abs() <= window).collect();
 		ns.push(0);
 		ns.push(NMAX);
 		ns.dedup();
@@ -136,14 +138,15 @@ pub fn check(rep: &Reporter) {
 	});
 
 	// ---- batches: array length L-2..L+2 with the adjustable entry at every position
-	let bwork: Vec<(u32, usize, usize)> = lims.iter().flat_map(|l| (1..=4usize).flat_map(move |k| (0..k).map(move |j| (*l, k, j)))).collect();
+	let kmax = if thorough { 6usize } else { 4 };
+	let bwork: Vec<(u32, usize, usize)> = lims.iter().flat_map(|l| (1..=kmax).flat_map(move |k| (0..k).map(move |j| (*l, k, j)))).collect();
 	par_for(rep, bwork.len(), 4, srv::rt, |i, rt, local| {
 		let (l, k, j) = bwork[i];
 		let _e = rt.enter();
 		let mut http = srv::http_service(cfg(l));
 		let ws = srv::ws_server(cfg(l));
 		for kind in [0u8, 1, 3] {
-			for delta in -2i64..=2 {
+			for delta in (if thorough { -4i64..=4 } else { -2i64..=2 }) {
 				// other entries carry 3 units; find n for entry j so that the unlimited array has L+delta bytes
 				let entry = |idx: usize, n: usize| call_text("blob", &format!("{}", idx + 1), kind, n);
 				let len_of = |n: usize| -> usize {
@@ -201,7 +204,7 @@ pub fn check(rep: &Reporter) {
 	});
 
 	// ---- WebSocket subscribe responses with wide subscription ids
-	let swork: Vec<(u32, i64)> = lims.iter().filter(|l| **l <= 330).flat_map(|l| (-2i64..=2).map(move |d| (*l, d))).collect();
+	let swork: Vec<(u32, i64)> = lims.iter().filter(|l| **l <= 600).flat_map(|l| (-2i64..=2).map(move |d| (*l, d))).collect();
 	par_for(rep, swork.len(), 8, srv::rt, |i, rt, local| {
 		let (l, delta) = swork[i];
 		let _e = rt.enter();
